@@ -167,7 +167,7 @@ func matryerMethodRules(c *Ctx, p *TPath) {
 			if !resets {
 				fail("R04.6", "reset-without-flag", "reset method "+normMsg(m.fd.Name.Name)+" generated although with-resets is not set", m.fd.Pos())
 			}
-			matryerReset(c, p, m, []string{m.elem}, fail)
+			matryerReset(c, p, m, methods, []string{m.elem}, fail)
 		case m.elem == "" && strings.HasPrefix(m.role, "Reset"):
 			resetAll[ii]++
 			if !resets {
@@ -177,7 +177,7 @@ func matryerMethodRules(c *Ctx, p *TPath) {
 			for mi := range p.Shape.Ifaces[ii].Methods {
 				all = append(all, fmt.Sprintf("%s.m%d", ifaceLetter(ii), mi))
 			}
-			matryerReset(c, p, m, all, fail)
+			matryerReset(c, p, m, methods, all, fail)
 		default:
 			fail("R04.2", "unknown-method", fmt.Sprintf("method %s on the mock struct is of no recognised kind (mock method, <M>Calls, Reset<M>Calls, ResetCalls)", normMsg(m.fd.Name.Name)), m.fd.Pos())
 		}
@@ -530,10 +530,32 @@ func matryerCalls(c *Ctx, p *TPath, m mfunc, fail func(rule, key, what string, p
 	c.OK("R04.5", "matryer|calls", "", name)
 }
 
-func matryerReset(c *Ctx, p *TPath, m mfunc, want []string, fail func(rule, key, what string, pos token.Pos)) {
+func matryerReset(c *Ctx, p *TPath, m mfunc, methods []mfunc, want []string, fail func(rule, key, what string, pos token.Pos)) {
 	name := normMsg(m.fd.Name.Name)
 	got := map[string]int{}
 	ok := true
+	// delegation: a call, on the same receiver, of the reset method of one mocked method empties that
+	// method's records (that method is examined on its own)
+	for _, st := range m.fd.Body.List {
+		es, isEs := st.(*ast.ExprStmt)
+		if !isEs {
+			continue
+		}
+		call, isCall := es.X.(*ast.CallExpr)
+		if !isCall || len(call.Args) != 0 {
+			continue
+		}
+		sel, isSel := call.Fun.(*ast.SelectorExpr)
+		root, _ := sel.X.(*ast.Ident)
+		if !isSel || root == nil || p.Info.Uses[root] != m.recv {
+			continue
+		}
+		for _, m2 := range methods {
+			if m2.fd != m.fd && m2.mt == m.mt && m2.elem != "" && strings.HasPrefix(m2.role, "Reset") && sameFunc(p.Info.Uses[sel.Sel], p.Info.Defs[m2.fd.Name]) {
+				got[m2.elem]++
+			}
+		}
+	}
 	ast.Inspect(m.fd.Body, func(x ast.Node) bool {
 		as, isAs := x.(*ast.AssignStmt)
 		if !isAs {
@@ -569,4 +591,11 @@ func matryerReset(c *Ctx, p *TPath, m mfunc, want []string, fail func(rule, key,
 	if ok {
 		c.OK("R04.6", "matryer|reset", "", name)
 	}
+}
+
+// sameFunc: the same declared function (a method selected on a generic receiver is an instance of it).
+func sameFunc(a, b types.Object) bool {
+	fa, ok1 := a.(*types.Func)
+	fb, ok2 := b.(*types.Func)
+	return ok1 && ok2 && fa.Origin() == fb.Origin()
 }
